@@ -335,6 +335,22 @@ pub fn hostile_custom_type() -> BoxedStrategy<String> {
             }
             t
         }),
+        // well-formed nested vectors of fixed-size elements with large dimensions (the fixed size of the whole
+        // type is the product of the dimensions)
+        1 => (
+            1usize..9,
+            prop_oneof![Just(65_535u64), Just(32_768), Just(255), Just(3), Just(65_536), Just(4_294_967_295)],
+            prop_oneof![Just("Int32Type"), Just("LongType"), Just("UUIDType"), Just("BooleanType"), Just("UTF8Type")],
+            any::<bool>(),
+        )
+            .prop_map(|(d, dims, leaf, qualified)| {
+                let p = if qualified { "org.apache.cassandra.db.marshal." } else { "" };
+                let mut t = format!("{p}{leaf}");
+                for _ in 0..d {
+                    t = format!("{p}VectorType({t} , {dims})");
+                }
+                t
+            }),
         // very deep plain nesting
         1 => (prop_oneof![50usize..400, 2000usize..6500], prop_oneof![Just("ListType"), Just("FrozenType"), Just("TupleType"), Just("VectorType")]).prop_map(|(d, w)| {
             let mut t = String::with_capacity(d * 12);
